@@ -102,6 +102,33 @@ func (d *deployment) locksHeld() []int {
 	return held
 }
 
+// forceRelease unlocks whatever the deployment's lock set still holds (after a leak was reported).
+func (d *deployment) forceRelease() {
+	if d.cfg.Lock == "none" {
+		return
+	}
+	w, _ := orcas.VerifLockSet(d.slot)
+	for _, l := range w {
+		switch m := l.(type) {
+		case *sync.Mutex:
+			for !m.TryLock() {
+				m.Unlock()
+			}
+			m.Unlock()
+		case *sync.RWMutex:
+			for !m.TryLock() {
+				if m.TryRLock() { // held by readers
+					m.RUnlock()
+					m.RUnlock()
+				} else {
+					m.Unlock()
+				}
+			}
+			m.Unlock()
+		}
+	}
+}
+
 func (d *deployment) openBackendConns(from int) (open []string) {
 	d.mu.Lock()
 	defer d.mu.Unlock()
@@ -227,6 +254,11 @@ func runC15(c *rt.Ctx) {
 							c.Violation(fmt.Sprintf("C15 %s cfg=%s port=%d proto=%s first=%s at=%s", clause, cfgClass(Cfg{Orca: wk.cfg.Orca, Lock: wk.cfg.Lock, Proto: proto, L1H: wk.cfg.L1H}), wk.port, proto, opTag(ops[0]), where),
 								fmt.Sprintf("stream %q cut after %d bytes: %s", stream, cut, detail), dc)
 						}
+						if strings.HasPrefix(clause, "lock-left-held") {
+							// reported; release the leaked locks so that the remaining cases of this
+							// deployment can run (anything touching the stripe would block for good)
+							d.forceRelease()
+						}
 						if cut == len(stream)/2 && len(ops) == 2 && wi%5 == 0 {
 							c.Sample(map[string]interface{}{"cfg": wk.cfg.String(), "port": wk.port, "stream": fmt.Sprintf("%q", stream), "cut_after_bytes": cut})
 						}
@@ -284,6 +316,10 @@ func (d *deployment) runDisconnectMode(proto string, stream []byte, cut int, ove
 	}
 	cli.End()
 	synctest.Wait()
+	// checked first: anybody touching a stripe that stayed locked would block for good
+	if h := d.locksHeld(); len(h) > 0 {
+		return "lock-left-held", fmt.Sprintf("stripes %v still locked after the client went away", h)
+	}
 	if overlap {
 		// this client's backend connections are closed, the other client's are not
 		d.mu.Lock()
